@@ -479,7 +479,11 @@ fn bits_list(v: &[(f32, f32)]) -> String {
 }
 
 fn ulp_case(pts: &[(f32, f32)], rule: Rule, q: (f32, f32)) -> Result<bool, Violation> {
-    let case = format!("ulp=1 rule={} qb={:08x}:{:08x} pts={}", if rule == Rule::NonZero { "nz" } else { "eo" }, q.0.to_bits(), q.1.to_bits(), bits_list(pts));
+    ulp_case_tol(pts, rule, q, 0.1)
+}
+
+fn ulp_case_tol(pts: &[(f32, f32)], rule: Rule, q: (f32, f32), tol: f32) -> Result<bool, Violation> {
+    let case = format!("ulp=1 rule={} qb={:08x}:{:08x} tol={:?} pts={}", if rule == Rule::NonZero { "nz" } else { "eo" }, q.0.to_bits(), q.1.to_bits(), tol, bits_list(pts));
     let mut pb = PathBuilder::new();
     for (i, p) in pts.iter().enumerate() {
         if i == 0 {
@@ -491,7 +495,7 @@ fn ulp_case(pts: &[(f32, f32)], rule: Rule, q: (f32, f32)) -> Result<bool, Viola
     pb.close();
     let mut path = pb.finish();
     path.winding = if rule == Rule::NonZero { Winding::NonZero } else { Winding::EvenOdd };
-    let got = guard(|| path.contains_point(0.1, q.0, q.1)).map_err(|p| Violation::new("contains_point/panic", case.clone(), p))?;
+    let got = guard(|| path.contains_point(tol, q.0, q.1)).map_err(|p| Violation::new("contains_point/panic", case.clone(), p))?;
     let exp = exact_contains(pts, rule, q);
     if got != exp {
         return Err(Violation::new(format!("contains_point/{}", if exp { "inside-point-reported-outside" } else { "outside-point-reported-inside" }), case, format!("polygon {:?}: contains_point({:?}, {:?}) = {}, exact rational model = {}", pts, q.0, q.1, got, exp)));
@@ -589,6 +593,85 @@ fn long_edges(run: &Run) {
     });
 }
 
+/// straight polygons with decimal coordinates queried exactly at their vertices, at the midpoints of
+/// their axis-aligned edges and just beside them, with tolerances from 100 down to 1e-12 (a straight
+/// path does not depend on the tolerance, however it is routed inside)
+fn exact_points_at_tiny_tolerances(run: &Run) {
+    let polys: Vec<Vec<(f32, f32)>> = vec![vec![(0.1, 0.1), (0.7, 0.1), (0.7, 0.9), (0.1, 0.9)], vec![(12.0, 0.6), (22.0, 20.2), (12.0, 40.7), (2.0, 2.3)], vec![(3.3, 1.7), (9.1, 1.7), (9.1, 6.2), (5.5, 8.9), (3.3, 6.2)]];
+    let tols = [3e-9f32, 1e-9, 1e-12, 7e-10, 1e-30, 100.0, 0.1];
+    run.bound("exact points at tiny tolerances", format!("{} decimal-coordinate polygons x both orders x tolerances {:?} x queries at every vertex, at the midpoint of every edge whose midpoint is exact, and half a unit inside / outside along the axes; exact rational model", polys.len(), tols));
+    run.par(polys.len() * 2, |s, l| {
+        let mut pts = polys[s / 2].clone();
+        if s % 2 == 1 {
+            pts.reverse();
+        }
+        let n = pts.len();
+        let mut qs: Vec<(f32, f32)> = pts.clone();
+        for i in 0..n {
+            let (a, b) = (pts[i], pts[(i + 1) % n]);
+            if a.0 == b.0 || a.1 == b.1 {
+                let m = (0.5 * (a.0 + b.0), 0.5 * (a.1 + b.1));
+                qs.push(m);
+                qs.push((m.0 + 0.5, m.1));
+                qs.push((m.0, m.1 - 0.5));
+            }
+        }
+        for &tol in &tols {
+            for rule in [Rule::NonZero, Rule::EvenOdd] {
+                let mut bits = 0u64;
+                for &q in &qs {
+                    l.transitions += 1;
+                    match ulp_case_tol(&pts, rule, q, tol) {
+                        Ok(b) => bits = bits.rotate_left(3) ^ b as u64,
+                        Err(v) => {
+                            run.report(87_000 + s, v);
+                            return;
+                        }
+                    }
+                }
+                l.states += 1;
+                l.traces += 1;
+                l.evals += 1;
+                l.nontrivial += 1;
+                l.outcome(bits);
+            }
+        }
+    });
+}
+
+/// points circled 130 / 260 times by one path (one self-overlapping subpath, and many subpaths of
+/// the same orientation): winding numbers beyond 8-bit ranges
+fn many_turns(run: &Run) {
+    run.bound("many turns", "a square traced 130 / 260 times in one subpath, and 130 / 260 same-orientation square subpaths, both orientations x 2 rules x 9 query points".to_string());
+    run.par(8, |s, l| {
+        let n = if s % 2 == 0 { 130 } else { 260 };
+        let separate = (s / 2) % 2 == 1;
+        let rev = s / 4 == 1;
+        let mut sq = vec![(2, 2), (8, 2), (8, 8), (2, 8)];
+        if rev {
+            sq.reverse();
+        }
+        let mut ops = Vec::new();
+        for k in 0..n {
+            for (i, p) in sq.iter().enumerate() {
+                if i == 0 && (k == 0 || separate) {
+                    ops.push(QOp::M(p.0, p.1));
+                } else {
+                    ops.push(QOp::L(p.0, p.1));
+                }
+            }
+            if separate {
+                ops.push(QOp::Z);
+            } else {
+                ops.push(QOp::L(sq[0].0, sq[0].1));
+            }
+        }
+        let qs: Vec<P> = vec![(5, 5), (3, 7), (2, 2), (8, 5), (5, 2), (1, 5), (9, 9), (5, 9), (0, 0)];
+        l.states += 1;
+        eval_path(run, 88_000 + s, l, &ops, &qs, false);
+    });
+}
+
 impl Check for C17 {
     fn id(&self) -> &'static str {
         "C17"
@@ -608,6 +691,8 @@ impl Check for C17 {
         polygons(run, "triangles 5x5", &g5, 3, false, &qs, true);
         long_edges(run);
         ulp_family(run);
+        exact_points_at_tiny_tolerances(run);
+        many_turns(run);
         // straight paths do not depend on the tolerance, however large or small
         {
             let tols = [0.001f32, 3.0, 100.0];
@@ -719,7 +804,8 @@ impl Check for C17 {
             };
             let pts: Vec<(f32, f32)> = kv_s(&m, "pts")?.split(',').map(pb).collect::<Result<_, _>>()?;
             let rule = if kv_s(&m, "rule")? == "nz" { Rule::NonZero } else { Rule::EvenOdd };
-            return Ok(ulp_case(&pts, rule, pb(kv_s(&m, "qb")?)?).err());
+            let tol = m.get("tol").and_then(|t| t.parse::<f32>().ok()).unwrap_or(0.1);
+            return Ok(ulp_case_tol(&pts, rule, pb(kv_s(&m, "qb")?)?, tol).err());
         }
         let ops = parse_ops(kv_s(&m, "ops")?)?;
         let rule = if kv_s(&m, "rule")? == "nz" { Rule::NonZero } else { Rule::EvenOdd };
